@@ -119,9 +119,10 @@ def e_datum(ctx, n):
             for f in ("equations", "dof", "defect"):
                 if r[f] != ref[f]:
                     dd.append("%s %s vs %s" % (f, r[f], ref[f]))
-            # gama stops its linearisation loop when linear and non-linear adjusted observations agree to 0.0005 mm in position
-            # (TestLinearization, max_dif): each residual is known to dv <= 0.0005 mm / sigma_pos, hence v'Pv to about
-            # 2 sqrt(v'Pv m) dv; sigma_pos >= 1 mm for everything the generator produces
+            # gama leaves its linearisation loop when linear and non-linear adjusted observations agree to 0.0005 mm in position
+            # (TestLinearization, max_dif): each residual is then known to dv <= 0.0005 mm / sigma_pos, hence v'Pv to about
+            # 2 sqrt(v'Pv m) dv (sigma_pos >= 1 mm for everything the generator produces).  Two datum choices stop at different
+            # points of that loop (checked by hand on seeds 9 and 20260926: 0 vs 1 iteration, both converged to the criterion)
             stol = 3e-6 * max(1.0, ref["ssq"]) + 2 * math.sqrt(max(ref["ssq"], 0.0) * max(1, ref["equations"])) * 5e-4 * 2
             if abs(r["ssq"] - ref["ssq"]) > stol:
                 dd.append("sum of squares %.8g vs %.8g" % (r["ssq"], ref["ssq"]))
